@@ -48,7 +48,8 @@ LEVEL_NOTE = ('Trusted: the check\'s own evaluation of the documented ansatz; th
               '|median-p_th| <= 5.9e-4, residual of the reported parameters on the documented ansatz <= 3.6e-4, so '
               'the bounds 2e-3 / 3e-3 / 1.5e-3 leave a factor >= 4. Not covered: parameters off the lattice, '
               'ill-conditioned data (fewer than 200 trials, threshold outside the window), autotruncate/override paths, '
-              'sector thresholds, the splitting method, 4-file orders beyond the 6 listed. Extra families '
+              'the splitting method, 4-file orders beyond the 6 listed, 50% or more failed re-fits (the statement '
+              'is silent there). Extra families '
               '(low-stat: N = 200/300/500 on a narrow window; off-centre: p_th at 1/4 or 3/4 of an 8-rate window): '
               'the clauses kept are exactly those of the property statement - status success, estimate within '
               'max(3e-3, CI half-width) of p_th, estimate inside its own interval, ESTIMATE (not the whole interval) '
@@ -74,7 +75,12 @@ RULE = ('one case = one planting (p_th, nu, A, B, C, distance set, number of rat
         'be its own row of the thresholds table and satisfy every clause with its own p_th (rows are assigned to '
         'sets by nearest threshold, the data points of a row are taken from trunc_results by the row\'s own '
         'identifying columns and must be exactly the planted table of that set); files of the two sets are '
-        'permuted and interleaved')
+        'permuted and interleaved. Family refit-failures: the environment answer of scipy.optimize.curve_fit as '
+        'seen from panqec.analysis is scripted so that chosen bootstrap re-fits (1, 2, 49 of 100, in different '
+        'positions) end with the RuntimeError scipy raises at maxfev; fewer than half fail, so every clause must '
+        'still hold with a finite threshold. Family sectors: the X-block and Z-block failure rates of one data '
+        'set are planted with different thresholds (codes with k = 1 and k = 2) and Analysis.sector_thresholds '
+        'must recover each sector\'s own threshold')
 ASSUMPTIONS = [
     'documented ansatz f = A + B x + C x^2 with x = (p - p_th) d^nu (property statement; fit_function, rescale_prob)',
     'N trials per point (2000; unequal 4000..1000 per distance; 200/300/500 in the low-statistics families), '
@@ -83,6 +89,10 @@ ASSUMPTIONS = [
     'a record of the results file is a "row"; the per-distance files are the "files" of the property',
     'data sets whose (code family, noise model + parameters, decoder class + parameters) differ are separate '
     'parameter sets with separate thresholds (Analysis docs: thresholds for each (code, error_model, decoder))',
+    'failed bootstrap re-fits are dropped when they are fewer than half (fit_fss_params: "If less than 50% of rows '
+    'has nan, then remove the NaN rows"); a re-fit fails by scipy curve_fit raising RuntimeError (scripted)',
+    'Analysis.sector_thresholds[X/Z] are reported thresholds in the sense of the statement: sector rate = ones in '
+    'the first / last k columns of the effective error over k x (trials in the codespace), fitted on the same ansatz',
 ]
 _GRID = {'p_th': [0.03, 0.06, 0.1, 0.15], 'nu': [0.8, 1.0, 1.25], 'A': [0.25, 0.35], 'B': [0.8, 1.5],
          'C': [0.5, 1.0]}
@@ -97,14 +107,19 @@ BOUNDS = {
               'orders_per_planting': 3,
               'extra_families': '3 low-stat + 3 off-centre plantings (see RULE), 3 orders each',
               'multi_set': '4 cases (one per varied identifying field), 2 planted sets each, distances 3,5,7, '
-                           '3 orders'},
+                           '3 orders',
+              'refit_failures': '3 scripted failure patterns (1, 2, 49 of 100 re-fits), one planting each, 3 orders',
+              'sectors': '2 cases (Planar2D k=1 d=3,5,7; Toric2D k=2 d=4,6,8), X and Z thresholds planted, '
+                         '3 orders'},
     'thorough': {'grid': _GRID, 'window_half_width': {str(k): v for k, v in _HALF.items()},
                  'distance_sets': _DSETS, 'n_rates': _NRATES, 'n_trials': 2000, 'code': 'Toric2DCode LxL',
                  'plantings': 'full lattice filtered to 0 < f < 1, equal and unequal trial counts',
                  'orders_per_planting': 6,
                  'extra_families': '48 low-stat + 72 off-centre plantings (see RULE), 3 orders each',
                  'multi_set': '4 varied fields x 4 planting pairs x 2 distance sets filtered to 0 < f < 1 = 28 '
-                              'cases, 2 planted sets each, 6 orders'},
+                              'cases, 2 planted sets each, 6 orders',
+                 'refit_failures': '5 scripted failure patterns x 4 plantings = 20 cases, 3 orders',
+                 'sectors': '4 (code, distance set) x 3 (X, Z) planting pairs = 12 cases, 3 orders'},
 }
 BUDGET_S = {'quick': 600, 'thorough': 3600}
 
@@ -253,6 +268,69 @@ def _multi_lattice(tier):
     return out
 
 
+# which bootstrap re-fits (1-based call number after the best fit, 100 re-fits) the environment lets fail
+_REFIT_PATTERNS = {
+    'first': [1],
+    'last': [100],
+    'two-adjacent': [37, 38],
+    'alternate-49': list(range(1, 98, 2)),
+    'leading-49': list(range(1, 50)),
+}
+
+
+def _refit_lattice(tier):
+    """Family 'refit-failures': the environment (scipy.optimize.curve_fit as seen from panqec.analysis) is
+    scripted so that chosen bootstrap re-fits end with scipy's RuntimeError (maxfev); fewer than half of the 100
+    re-fits fail, so by the documented rule they are dropped and every clause of the statement still holds."""
+    plantings = [[0.1, 1.0, 0.35, 0.8, 1.0, [3, 5, 7]], [0.06, 1.0, 0.35, 0.8, 0.5, [4, 6, 8, 10]],
+                 [0.15, 0.8, 0.25, 1.5, 0.5, [3, 5, 7]], [0.1, 0.8, 0.35, 1.5, 1.0, [4, 6, 8, 10]]]
+    names = ['first', 'two-adjacent', 'alternate-49'] if tier == 'quick' else sorted(_REFIT_PATTERNS)
+    out = []
+    for i, name in enumerate(names):
+        for j, (p_th, nu, A, B, C, ds) in enumerate(plantings):
+            if tier == 'quick' and j != i % len(plantings):
+                continue
+            fs = [_ansatz(p, d, p_th, nu, A, B, C) for p in _rates(p_th, _HALF[p_th], 7) for d in ds]
+            if not (min(fs) > 0 and max(fs) < 1):
+                raise AssertionError('refit-failures planting leaves (0,1)')
+            perms = _file_orders(len(ds))[:3]
+            out.append({'family': 'refit-failures', 'pattern': name, 'refit_failures': _REFIT_PATTERNS[name],
+                        'p_th': p_th, 'nu': nu, 'A': A, 'B': B, 'C': C, 'ds': list(ds), 'nrates': 7,
+                        'half': _HALF[p_th], 'cls': 'Toric2DCode', 'n_trials': N_TRIALS,
+                        'orders': [[perm, k % 3] for k, perm in enumerate(perms)]})
+    return out
+
+
+def _sector_lattice(tier):
+    """Family 'sectors': the X-block and the Z-block logical failure rates of one data set lie on the ansatz
+    with DIFFERENT planted thresholds; Analysis.sector_thresholds['X'] / ['Z'] are threshold tables the analysis
+    reports and each must recover its own planted threshold (the total rate is on no single ansatz: not judged)."""
+    pairs = [{'X': [0.1, 1.0, 0.25, 0.8, 0.5], 'Z': [0.12, 1.0, 0.35, 0.8, 1.0]},
+             {'X': [0.12, 0.8, 0.35, 1.5, 0.5], 'Z': [0.1, 1.25, 0.25, 0.8, 0.5]},
+             {'X': [0.105, 1.25, 0.25, 0.8, 1.0], 'Z': [0.115, 0.8, 0.35, 0.8, 0.5]}]
+    combos = [['Planar2DCode', [3, 5, 7]], ['Toric2DCode', [4, 6, 8]], ['Toric2DCode', [3, 5, 7]],
+              ['Planar2DCode', [4, 6, 8]]]
+    out = []
+    for ci, (cls, ds) in enumerate(combos):
+        for pi, sectors in enumerate(pairs):
+            if tier == 'quick' and (ci > 1 or pi != ci):
+                continue
+            rates = _rates(0.11, 0.03, 9)
+            fs = [_ansatz(p, d, *sectors[v]) for v in sectors for p in rates for d in ds]
+            if not (min(fs) > 0 and max(fs) < 1):
+                continue
+            perms = _file_orders(len(ds))[:3]
+            out.append({'family': 'sectors', 'sectors': sectors, 'cls': cls, 'ds': list(ds), 'nrates': 9,
+                        'rates': rates, 'half': None, 'n_trials': N_TRIALS, 'window': 'shared, centre 0.11',
+                        # placeholders of the single-set key fields; the targets carry the sector plantings
+                        'p_th': 0.0, 'nu': 0.0, 'A': 0.0, 'B': 0.0, 'C': 0.0,
+                        # p_th sits at 1/3 or 2/3 of the shared window: the statement puts the threshold, not the
+                        # whole interval, inside the data range
+                        'interval_in_range': False,
+                        'orders': [[perm, k % 3] for k, perm in enumerate(perms)]})
+    return out
+
+
 def cases(tier, seed):
     lat = _lattice()
     n_orders = BOUNDS[tier]['orders_per_planting']
@@ -296,6 +374,8 @@ def cases(tier, seed):
         c['orders'] = [[perm, j % 3] for j, perm in enumerate(perms)]
         out.append(c)
     out.extend(_multi_lattice(tier))
+    out.extend(_refit_lattice(tier))
+    out.extend(_sector_lattice(tier))
     return out
 
 
@@ -335,8 +415,31 @@ def _plant(rec, nf, N_TRIALS=N_TRIALS):
     r['codespace'] = [True] * N_TRIALS
 
 
+def _plant_sectors(rec, cx, cz, N):
+    """Per-trial arrays with cx ones in the X block (first k columns of the effective error, filled row-major
+    from the first trial) and cz ones in the Z block (last k columns, filled from the last trial backwards);
+    success = no logical error and in the codespace, as run_once defines it."""
+    r = rec['results']
+    k = rec['inputs']['code']['k']
+    if sorted(r) != ['codespace', 'effective_error', 'n_runs', 'success', 'wall_time'] \
+            or len(r['effective_error']) != 1 or len(r['effective_error'][0]) != 2 * k:
+        raise AssertionError('unexpected results-file layout: %s' % sorted(r))
+    eff = np.zeros((N, 2 * k), dtype=int)
+    xb = np.zeros(N * k, dtype=int)
+    xb[:cx] = 1
+    zb = np.zeros(N * k, dtype=int)
+    zb[N * k - cz:] = 1
+    eff[:, :k] = xb.reshape(N, k)
+    eff[:, k:] = zb.reshape(N, k)
+    r['n_runs'] = N
+    r['wall_time'] = float(r['wall_time']) * N
+    r['effective_error'] = eff.tolist()
+    r['success'] = [not bool(v) for v in eff.any(axis=1)]
+    r['codespace'] = [True] * N
+
+
 def _key(case, kind, **kw):
-    """`case` is the planted data set concerned (for single-set cases the case itself)."""
+    """`case` is the planted target concerned (for single-set cases the case itself)."""
     if kind != 'order-dependence':      # order goes to the detail; the key names the planting
         kw.pop('file_order', None)
         kw.pop('row_shuffle', None)
@@ -347,35 +450,76 @@ def _key(case, kind, **kw):
          'window': case.get('window', 'centred')}
     if case.get('varied'):              # several planted sets in one Analysis: which field differs, which set
         k.update({'varied': case['varied'], 'set': case['set'], 'n_sets': case['n_sets']})
+    if case.get('sector'):              # planted sector rates: which sector table, which code
+        k.update({'sector': case['sector'], 'cls': case['cls']})
+    if case.get('refit_failures') is not None:      # scripted environment: which bootstrap re-fits fail
+        k.update({'pattern': case['pattern'], 'failed_refits': len(case['refit_failures'])})
     k.update(kw)
     return k
 
 
-def _observe(files):
-    """All rows of the thresholds table, each with the data points the analysis attributes to it."""
-    from panqec.analysis import Analysis
-    with contextlib.redirect_stdout(io.StringIO()):
-        an = Analysis(list(files))
-        th = an.thresholds
-        tr = an.trunc_results['total']
+class _ScriptedCurveFit:
+    """Environment answer of scipy.optimize.curve_fit as seen from panqec.analysis: call 0 of a threshold fit is
+    the best fit, call i >= 1 the i-th bootstrap re-fit; the calls listed in `fail` answer with the RuntimeError
+    scipy raises when maxfev is exhausted, all others are passed to the real scipy function unchanged."""
+
+    def __init__(self, real, fail):
+        self.real, self.fail, self.calls, self.failed = real, set(fail), 0, 0
+
+    def __call__(self, *args, **kwargs):
+        i = self.calls
+        self.calls += 1
+        if i in self.fail:
+            self.failed += 1
+            raise RuntimeError('Optimal parameters not found: Number of calls to function has reached maxfev '
+                               '(scripted environment answer).')
+        return self.real(*args, **kwargs)
+
+
+def _observe(files, views=('total',), refit_failures=None):
+    """For every requested threshold table ('total' = Analysis.thresholds, 'X'/'Z' = Analysis.sector_thresholds)
+    all rows, each with the data points the analysis attributes to it.  With a re-fit failure script only the
+    total threshold fit is run (Analysis.calculate_thresholds(), one best fit + the bootstrap re-fits), so that
+    the call number identifies the re-fit."""
+    import panqec.analysis as pa
+    env = None
+    saved = pa.curve_fit
+    try:
+        with contextlib.redirect_stdout(io.StringIO()):
+            an = pa.Analysis(list(files))
+            if refit_failures is not None:
+                if tuple(views) != ('total',):
+                    raise AssertionError('scripted re-fits are defined for the total threshold fit only')
+                env = _ScriptedCurveFit(saved, refit_failures)
+                pa.curve_fit = env
+                an.calculate_thresholds()
+            tables = {}
+            for view in views:
+                tables[view] = (an.thresholds if view == 'total' else an.sector_thresholds[view],
+                                an.trunc_results[view], 'p_est' if view == 'total' else 'p_est_' + view)
+    finally:
+        pa.curve_fit = saved
     ident = ['code', 'error_model_label', 'decoder_label']
-    rows = []
-    for _, row in th.iterrows():
-        sel = tr
-        for col in ident:               # join of two panqec tables on panqec's own identifying columns
-            sel = sel[sel[col] == row[col]]
-        rows.append({
-            'identity': [str(row[col]) for col in ident],
-            'fit_status': str(row['fit_status']),
-            'fss_params': [float(v) for v in np.asarray(row['fss_params'], dtype=float)],
-            'p_th_fss': float(row['p_th_fss']),
-            'p_th_fss_left': float(row['p_th_fss_left']),
-            'p_th_fss_right': float(row['p_th_fss_right']),
-            'p_th_fss_se': float(row['p_th_fss_se']),
-            'points': sorted([int(d), float(p), float(pe), float(x)] for d, p, pe, x in
-                             zip(sel['d'], sel['error_rate'], sel['p_est'], sel['rescaled_p'])),
-        })
-    return rows
+    out = {'env': None if env is None else {'calls': env.calls, 'failed': env.failed}}
+    for view, (th, tr, pcol) in tables.items():
+        rows = []
+        for _, row in th.iterrows():
+            sel = tr
+            for col in ident:               # join of two panqec tables on panqec's own identifying columns
+                sel = sel[sel[col] == row[col]]
+            rows.append({
+                'identity': [str(row[col]) for col in ident],
+                'fit_status': str(row['fit_status']),
+                'fss_params': [float(v) for v in np.asarray(row['fss_params'], dtype=float)],
+                'p_th_fss': float(row['p_th_fss']),
+                'p_th_fss_left': float(row['p_th_fss_left']),
+                'p_th_fss_right': float(row['p_th_fss_right']),
+                'p_th_fss_se': float(row['p_th_fss_se']),
+                'points': sorted([int(d), float(p), float(pe), float(x)] for d, p, pe, x in
+                                 zip(sel['d'], sel['error_rate'], sel[pcol], sel['rescaled_p'])),
+            })
+        out[view] = rows
+    return out
 
 
 def _numbers(obs):
@@ -410,7 +554,7 @@ def _match(rows, sets):
 
 
 def _judge(sd, obs, table, Nd, ps, okey, V, extra):
-    """All per-threshold clauses for one planted set `sd` and the table row `obs` matched to it."""
+    """All per-threshold clauses for one planted target `sd` and the table row `obs` matched to it."""
     p_th, nu, A, B, C = sd['p_th'], sd['nu'], sd['A'], sd['B'], sd['C']
     p_lo, p_hi = min(ps), max(ps)
     tol_param = sd.get('tol', {}).get('param', TOL_PARAM)
@@ -418,8 +562,9 @@ def _judge(sd, obs, table, Nd, ps, okey, V, extra):
     # (1) status.  Waived (and counted) when an end of the reported interval is not a probability: then the
     #     bootstrap is so wide that the planting is not in the well-conditioned box for this clause, and
     #     'Invalid threshold value.' is the documented answer (2 of the 120 low-stat/off-centre plantings on /repo).
-    interval_valid = 0 <= obs['p_th_fss_left'] and obs['p_th_fss_right'] <= 1
-    if obs['fit_status'] != 'success' and not interval_valid and sd.get('family') in ('low-stat', 'off-centre'):
+    ends = [obs['p_th_fss_left'], obs['p_th_fss_right']]
+    end_not_probability = all(math.isfinite(v) for v in ends) and (ends[0] < 0 or ends[1] > 1)
+    if obs['fit_status'] != 'success' and end_not_probability and sd.get('family') in ('low-stat', 'off-centre'):
         extra['status_clause_waived_interval_end_not_probability'] += 1
     elif obs['fit_status'] != 'success':
         V.append({'key': _key(sd, 'fit-not-success', status=obs['fit_status'][:60], **okey),
@@ -430,6 +575,8 @@ def _judge(sd, obs, table, Nd, ps, okey, V, extra):
     det['order'] = okey
     det['planted'] = {'p_th': p_th, 'nu': nu, 'A': A, 'B': B, 'C': C, 'data_range': [p_lo, p_hi]}
     if not all(math.isfinite(v) for v in _numbers(obs)):
+        # "the reported threshold equals p_th": a NaN/inf threshold, interval or parameter does not
+        V.append({'key': _key(sd, 'threshold-not-finite', **okey), 'detail': det})
         return
     # (2) fitted threshold parameter and reported estimate
     if abs(fp[0] - p_th) > tol_param:
@@ -444,7 +591,7 @@ def _judge(sd, obs, table, Nd, ps, okey, V, extra):
         V.append({'key': _key(sd, 'estimate-outside-data-range', **okey), 'detail': det})
     elif sd.get('interval_in_range', True) and not (p_lo <= left and right <= p_hi):
         V.append({'key': _key(sd, 'interval-outside-data-range', **okey), 'detail': det})
-    # (4) the reported parameters, read on the DOCUMENTED ansatz, reproduce the planted rates of THIS set
+    # (4) the reported parameters, read on the DOCUMENTED ansatz, reproduce the planted rates of THIS target
     resid = 0.0
     xerr = 0.0
     misread = len(obs['points']) != len(table)
@@ -455,7 +602,7 @@ def _judge(sd, obs, table, Nd, ps, okey, V, extra):
             continue
         resid = max(resid, abs(_ansatz(p, d, *fp) - pe))
         xerr = max(xerr, abs((p - fp[0]) * d ** fp[1] - x))
-    if misread:             # the fit did not work on the planted (d, p, n_fail/N) table of this set
+    if misread:             # the fit did not work on the planted (d, p, count/denominator) table of this target
         V.append({'key': _key(sd, 'planted-rates-not-used', **okey),
                   'detail': dict(det, points_used=obs['points'][:12], points_planted=len(table))})
     if resid > tol_resid:
@@ -465,16 +612,25 @@ def _judge(sd, obs, table, Nd, ps, okey, V, extra):
         V.append({'key': _key(sd, 'rescaled-x-not-documented', **okey), 'detail': dict(det, max_x_error=xerr)})
 
 
+def _nontrivial(table, Nd, ds, ps):
+    """The extreme distances cross inside the window and each distance has >= 3 different counts."""
+    dif = [table[(ds[-1], p)] / Nd[ds[-1]] - table[(ds[0], p)] / Nd[ds[0]] for p in (min(ps), max(ps))]
+    return dif[0] * dif[1] < 0 and all(len({table[(d, p)] for p in ps}) >= 3 for d in ds)
+
+
 def eval_case(case):
     res = {'evals': 0, 'nontrivial': 0, 'violations': [], 'outcomes': [], 'samples': [],
            'extra': {'violations_total': 0, 'orders_bitwise_equal': 0, 'orders_compared': 0,
-                     'status_clause_waived_interval_end_not_probability': 0, 'planted_sets_analysed': 0}}
+                     'status_clause_waived_interval_end_not_probability': 0, 'planted_thresholds_judged': 0,
+                     'scripted_refit_failures': 0, 'scripted_refits_total': 0}}
     V = []
     sets = _planted_sets(case)
+    script = case.get('refit_failures')
     sb = tempfile.mkdtemp(prefix='c16_', dir='/dev/shm' if os.path.isdir('/dev/shm') else None)
     try:
-        # ---- real-format records for every (planted set, distance): template from a real 1-trial simulation
-        plant = []                      # per set: rates, trial counts, planted table
+        # ---- real-format records for every (planted set, distance): template from a real 1-trial simulation.
+        #      A target = one planted threshold: (key source, table view, rates, denominators, planted counts).
+        targets = []
         units = []                      # one result file each: (set index, distance, records)
         nontrivial = True
         for si, sd in enumerate(sets):
@@ -482,7 +638,9 @@ def eval_case(case):
             Nd = dict(zip(ds, sd.get('n_by_d') or [N_TRIALS] * len(ds)))
             ps = [round(p, 6) for p in sd['rates']] if sd.get('rates') else _rates(sd['p_th'], sd['half'],
                                                                                    sd['nrates'])
-            table = {}
+            sectors = sd.get('sectors')                 # {'X': [p_th, nu, A, B, C], 'Z': [...]} or None
+            tables = {v: {} for v in (sorted(sectors) if sectors else ['total'])}
+            denoms = {v: {} for v in tables}
             for d in ds:
                 tmpl = os.path.join(sb, 'tmpl_%d_%d.json' % (si, d))
                 data = _template(sd['cls'], d, ps, tmpl, sd.get('decoder'), sd.get('direction'))
@@ -493,22 +651,37 @@ def eval_case(case):
                     if rec['inputs']['code']['d'] != d:
                         raise AssertionError('code.d = %r for planted distance %d' % (rec['inputs']['code']['d'], d))
                     p = rec['inputs']['error_rate']
-                    nf = _n_fail(_ansatz(p, d, sd['p_th'], sd['nu'], sd['A'], sd['B'], sd['C']), Nd[d])
-                    if not 0 < nf < Nd[d]:
-                        raise AssertionError('planted rate outside (0,1)')
-                    _plant(rec, nf, Nd[d])
-                    table[(d, round(p, 6))] = nf
+                    if sectors:
+                        # sector rate = ones in the sector block / (k x trials in the codespace)
+                        kN = rec['inputs']['code']['k'] * Nd[d]
+                        cnt = {v: _n_fail(_ansatz(p, d, *sectors[v]), kN) for v in tables}
+                        if not all(0 < c < kN for c in cnt.values()):
+                            raise AssertionError('planted sector rate outside (0,1)')
+                        _plant_sectors(rec, cnt['X'], cnt['Z'], Nd[d])
+                        for v in tables:
+                            tables[v][(d, round(p, 6))] = cnt[v]
+                            denoms[v][d] = kN
+                    else:
+                        nf = _n_fail(_ansatz(p, d, sd['p_th'], sd['nu'], sd['A'], sd['B'], sd['C']), Nd[d])
+                        if not 0 < nf < Nd[d]:
+                            raise AssertionError('planted rate outside (0,1)')
+                        _plant(rec, nf, Nd[d])
+                        tables['total'][(d, round(p, 6))] = nf
+                        denoms['total'][d] = Nd[d]
                 units.append((si, d, data))
-            # non-triviality: the extreme distances cross inside the window, each distance has >= 3 counts
-            dif = [table[(ds[-1], p)] / Nd[ds[-1]] - table[(ds[0], p)] / Nd[ds[0]] for p in (min(ps), max(ps))]
-            nontrivial = nontrivial and dif[0] * dif[1] < 0 and all(
-                len({table[(d, p)] for p in ps}) >= 3 for d in ds)
-            plant.append((ps, Nd, table))
-        if len(sets) > 1:               # several sets: their planted thresholds really differ
-            nontrivial = nontrivial and len({sd['p_th'] for sd in sets}) == len(sets)
+            for v in tables:
+                tsd = sd
+                if sectors:
+                    tsd = dict(sd, sector=v)
+                    tsd.update(dict(zip(('p_th', 'nu', 'A', 'B', 'C'), sectors[v])))
+                nontrivial = nontrivial and _nontrivial(tables[v], denoms[v], ds, ps)
+                targets.append({'sd': tsd, 'view': v, 'ps': ps, 'Nd': denoms[v], 'table': tables[v]})
+        if len(targets) > 1:            # several planted thresholds in one Analysis really differ
+            nontrivial = nontrivial and len({t['sd']['p_th'] for t in targets}) == len(targets)
         res['nontrivial'] = int(nontrivial)
+        views = sorted({t['view'] for t in targets})
         digest = hashlib.sha1(json.dumps(
-            [sorted((d, p, n) for (d, p), n in t.items()) for _, _, t in plant]).encode()).hexdigest()[:10]
+            [sorted((d, p, n) for (d, p), n in t['table'].items()) for t in targets]).encode()).hexdigest()[:10]
 
         # ---- every (file permutation, row shuffle)
         first = None
@@ -519,35 +692,51 @@ def eval_case(case):
                 with open(path, 'w') as f:
                     json.dump([data[j] for j in _row_order(shuffle, len(data))], f)
                 files.append(path)
-            rows = _observe([files[i] for i in perm])
+            seen = _observe([files[i] for i in perm], views, script)
             res['evals'] += 1
-            res['extra']['planted_sets_analysed'] += len(sets)
             if len(sets) == 1:
                 okey = {'file_order': [units[i][1] for i in perm], 'row_shuffle': shuffle}
             else:
                 okey = {'file_order': ['s%d-d%d' % units[i][:2] for i in perm], 'row_shuffle': shuffle}
-            # (0) every planted data set is its own row of the thresholds table
-            if len(rows) != len(sets):
-                if len(sets) == 1:
-                    V.append({'key': _key(case, 'fit-not-success', status='%d threshold rows' % len(rows), **okey),
-                              'detail': {'rows': [_brief(r) for r in rows][:4], 'order': okey}})
-                else:
-                    kk = _key(sets[0], 'planted-sets-not-separate-rows', rows=len(rows), **okey)
-                    kk.update({'set': 'all', 'planted_p_th': [round(sd['p_th'], 4) for sd in sets]})
-                    V.append({'key': kk, 'detail': {'rows': [_brief(r) for r in rows][:4], 'order': okey,
-                                                    'planted_sets': len(sets)}})
+            if seen['env'] is not None:
+                # the scripted answers were consumed, and fewer than half of the re-fits failed (premise of the
+                # documented rule "failed re-fits are dropped when they are fewer than 50%")
+                env = seen['env']
+                res['extra']['scripted_refit_failures'] += env['failed']
+                res['extra']['scripted_refits_total'] += max(env['calls'] - 1, 0)
+                if env['failed'] != len(script) or not 2 * env['failed'] < env['calls'] - 1:
+                    raise AssertionError('re-fit script not applicable: %r for script of %d' % (env, len(script)))
+            matched = []
+            for view in views:
+                tv = [t for t in targets if t['view'] == view]
+                rows = seen[view]
+                # (0) every planted data set is its own row of the thresholds table
+                if len(rows) != len(tv):
+                    if len(tv) == 1:
+                        V.append({'key': _key(tv[0]['sd'], 'fit-not-success',
+                                              status='%d threshold rows' % len(rows), **okey),
+                                  'detail': {'rows': [_brief(r) for r in rows][:4], 'order': okey}})
+                    else:
+                        kk = _key(tv[0]['sd'], 'planted-sets-not-separate-rows', rows=len(rows), **okey)
+                        kk.update({'set': 'all', 'planted_p_th': [round(t['sd']['p_th'], 4) for t in tv]})
+                        V.append({'key': kk, 'detail': {'rows': [_brief(r) for r in rows][:4], 'order': okey,
+                                                        'planted_sets': len(tv)}})
+                    matched = None
+                    break
+                for t, obs in zip(tv, _match(rows, [t['sd'] for t in tv])):
+                    _judge(t['sd'], obs, t['table'], t['Nd'], t['ps'], okey, V, res['extra'])
+                    res['extra']['planted_thresholds_judged'] += 1
+                    matched.append((t, obs))
+            if matched is None:
                 continue
-            rows = _match(rows, sets)
-            for sd, obs, (ps, Nd, table) in zip(sets, rows, plant):
-                _judge(sd, obs, table, Nd, ps, okey, V, res['extra'])
             # (5) order independence
             if first is None:
-                first = (okey, rows)
+                first = (okey, matched)
                 res['outcomes'].append('|'.join('%s,%.4f,%.4f' % (
                     o['fit_status'][:12], o['p_th_fss'], (o['p_th_fss_right'] - o['p_th_fss_left']) / 2)
-                    for o in rows) + '|' + digest + ('|' + case['varied'] if case.get('varied') else ''))
+                    for _, o in matched) + '|' + digest + '|' + str(case.get('varied') or case.get('pattern') or ''))
             else:
-                for sd, ref, obs in zip(sets, first[1], rows):
+                for (t, ref), (_, obs) in zip(first[1], matched):
                     res['extra']['orders_compared'] += 1
                     a, b = _numbers(ref), _numbers(obs)
                     same_status = ref['fit_status'] == obs['fit_status']
@@ -557,24 +746,26 @@ def eval_case(case):
                     close = same_status and all(
                         (x != x and y != y) or abs(x - y) <= TOL_ORDER for x, y in zip(a, b))
                     if not close:
-                        V.append({'key': _key(sd, 'order-dependence', **okey),
+                        V.append({'key': _key(t['sd'], 'order-dependence', **okey),
                                   'detail': {'reference_order': first[0], 'reference': _brief(ref),
                                              'this': _brief(obs)}})
         if first is not None and not res['samples']:
             res['samples'].append({
-                'planted': [{k: sd.get(k) for k in ('p_th', 'nu', 'A', 'B', 'C', 'cls', 'decoder', 'direction')}
-                            for sd in sets],
-                'distances': [sd['ds'] for sd in sets], 'rates': [ps for ps, _, _ in plant],
-                'n_fail': [[[t[(d, p)] for p in ps] for d in sd['ds']] for sd, (ps, _, t) in zip(sets, plant)],
-                'reported': [_brief(o) for o in first[1]], 'orders': len(case['orders'])})
+                'planted': [dict({k: t['sd'].get(k) for k in ('p_th', 'nu', 'A', 'B', 'C', 'cls', 'decoder',
+                                                               'direction')}, table=t['view'])
+                            for t in targets],
+                'distances': [t['sd']['ds'] for t in targets], 'rates': [t['ps'] for t in targets],
+                'counts': [[[t['table'][(d, p)] for p in t['ps']] for d in t['sd']['ds']] for t in targets],
+                'scripted_failed_refits': script,
+                'reported': [_brief(o) for _, o in first[1]], 'orders': len(case['orders'])})
     finally:
         shutil.rmtree(sb, ignore_errors=True)
     res['extra']['violations_total'] = len(V)
-    uniq, seen = [], set()
+    uniq, seen_keys = [], set()
     for v in V:                         # the same key in several orders is one finding
         ck = json.dumps(v['key'], sort_keys=True)
-        if ck not in seen:
-            seen.add(ck)
+        if ck not in seen_keys:
+            seen_keys.add(ck)
             uniq.append(v)
     res['violations'] = uniq[:5]
     return res
